@@ -86,14 +86,20 @@ def deductive(report, targets, contract_mods, preludes, theory=None, timeout=Non
         gens.append(pyrun.gen_function(modname, qual, reg, theory=th))
     pre = pyrun.prelude(*preludes)
     results = pyrun.discharge(gens, pre, timeout=timeout)
-    # retry undischarged obligations once with a larger budget (solver instability is not a verdict)
+    # retry undischarged obligations once with a larger budget (solver instability is not a verdict). On unchanged
+    # code (AST hash equals the baseline) the full portfolio gets 4x the time; on changed code one more solver run at 2x.
+    baseline = load_json(BASELINE_FILE, {})
+    hashes = {g['name']: g['hash'] for g in gens}
     retry = [i for i, r in enumerate(results) if r['verdict'] == 'unknown']
-    if retry and len(retry) <= 24:
-        again = smt.run_many([(results[i]['name'], results[i]['smt']) for i in retry], timeout=timeout * 4)
-        for i, r2 in zip(retry, again):
+    same = [i for i in retry if baseline.get(results[i]['function'], {}).get('hash') == hashes.get(results[i]['function'])]
+    changed = [i for i in retry if i not in same]
+    for group, tmo, solv in ((same[:32], timeout * 4, None), (changed[:16], timeout * 2, ['cvc5', 'z3-new'])):
+        if not group:
+            continue
+        again = smt.run_many([(results[i]['name'], results[i]['smt']) for i in group], timeout=tmo, solvers=solv)
+        for i, r2 in zip(group, again):
             if r2['verdict'] != 'unknown':
-                keep = results[i]
-                keep.update(verdict=r2['verdict'], solver=r2['solver'], output=r2['output'])
+                results[i].update(verdict=r2['verdict'], solver=r2['solver'], output=r2['output'])
             results[i]['seconds'] += r2['seconds']
             results[i]['tried'] = results[i]['tried'] + r2['tried']
     report.add_deductive(gens, results)
